@@ -8,6 +8,24 @@ from .src import Source
 
 # (name, program text defining RESULT or raising, expected repr of RESULT / "raise <Exc>")
 PROGRAMS = [
+    ("isinstance-against-abstract-base-classes", '''
+import types
+from collections.abc import Iterable, Mapping, MutableMapping, Sized, Sequence, Hashable
+class Plain:
+    pass
+class Cluster:
+    def __iter__(self):
+        return iter(())
+    def __len__(self):
+        return 0
+class OnlyGetitem:
+    def __getitem__(self, i):
+        raise IndexError
+d = {"k": 1}
+RESULT = (isinstance(Plain(), Iterable), isinstance(Cluster(), Iterable), isinstance(Cluster(), Sized), isinstance(OnlyGetitem(), Iterable), isinstance([1], Iterable), isinstance("s", Sequence),
+          isinstance(d, MutableMapping), isinstance(types.MappingProxyType(d), Mapping), isinstance(types.MappingProxyType(d), MutableMapping), isinstance(iter([1]), Iterable), isinstance((1,), Hashable),
+          isinstance(Cluster(), Sequence), isinstance(Cluster(), (int, Iterable)))
+''', "(False, True, True, False, True, True, True, True, False, True, True, False, True)"),
     ("bytearray-buffer", '''
 buf = bytearray()
 alias = buf
